@@ -11,6 +11,7 @@ import (
 func init() {
 	register(&propSpec{
 		id: "C17", title: "Static file serving never escapes its root", run: runC17,
+		variants:    []buildVariant{{name: "GOOS=windows", env: []string{"GOOS=windows"}}},
 		notCovered:  "time-of-check/time-of-use races between resolving and opening, URL decoding performed by net/http, file-system semantics (hard links, mounts)",
 		assumptions: []string{"filepath.EvalSymlinks returns the real location; isSubPath(root, p) on two resolved paths decides containment", "a path value is confined only if it is an EvalSymlinks result that passed isSubPath against a resolved root on every path to the sink"},
 	})
